@@ -4,6 +4,7 @@ pid = sys.argv[1]; wt = sys.argv[2]
 n = sys.argv[3] if len(sys.argv) > 3 else "2"
 p = next(json.loads(l) for l in open('/verif/properties.jsonl') if json.loads(l)['id'] == pid)
 import glob, os
+TAG = os.environ.get("TAG", "w7")
 avoid = []
 for d in sorted(glob.glob(f"/verif/seeded/{pid.lower()}_*/notes.txt")):
     lines = [l.strip() for l in open(d).read().splitlines() if l.strip()]
@@ -29,7 +30,7 @@ The property under attack:
   (b) still imports/compiles and leaves every existing test that passes on the unmodified tree passing (run them to be sure),
   (c) is realistic - the kind of slip a maintainer could make while refactoring or optimising (an off-by-one, a wrong table entry, a swapped argument, a dropped special case, a condition that is slightly too strong/weak, stale state reused across calls, two sites that each look fine alone) - not sabotage and not a comment/rename,
   (d) needs something specific to manifest: an unusual-but-legal input shape (a particular gate type at a particular fan-in, a particular combination of flags, an output that is also an input, a particular node-name or ordering), or a multi-step sequence of calls, or a particular set-iteration order - NOT something that any ordinary use would expose at once. Small diffs (1-10 lines) are best.
-For each change k (k = 1..{n}) leave these files in {wt}/_seeded/{pid.lower()}_w6_k/ :
+For each change k (k = 1..{n}) leave these files in {wt}/_seeded/{pid.lower()}_{TAG}_k/ :
   patch.diff  - `git diff` of the change against the worktree HEAD (source files only; must apply with `git apply` to a clean checkout of HEAD),
   demo.py     - a small standalone program (run as: PYTHONPATH=<tree> /venv/bin/python demo.py) that exits 0 on the unmodified tree and exits non-zero (assertion failure with a clear message) with the change applied; it must be deterministic (if it depends on set iteration order, set/document PYTHONHASHSEED or make it robust),
   notes.txt   - 3-6 lines: what the change is, why it breaks the property, what specific condition is needed to manifest it, and what you ran (test suite result with the change; demo result with and without).
